@@ -104,11 +104,13 @@ package exec
 //@ extern func exec.(*localExecutor).depReaders (ctx, task) (in, err)
 //@   may_panic
 //@   modifies unknown
-//@   preserves Limiter.held, Limiter.nacq, Limiter.lastAcq, localExecutor.limiter, localExecutor.sess, localExecutor.buffers, Session.p, Task.Pragma, nBufferOutput, lastBufferErr
+//@   preserves Limiter.held, Limiter.nacq, Limiter.lastAcq, localExecutor.limiter, localExecutor.sess, localExecutor.buffers, Session.p, Task.Pragma, nBufferOutput, lastBufferErr, Task.NumPartition, Task.Type, defaultChunksize, cells(int)
 
 // bufferOutput is under contract (C05/C06); callers use its contract:
 //@ func exec.bufferOutput (ctx, task, out) (buf, err)
-//@   requires task != nil && out != nil && task.NumPartition >= 1 && defaultChunksize != nil && *defaultChunksize >= 1 && task.Type != nil
+//@   requires task != nil && out != nil
+//@   requires task-shape: task.NumPartition >= 1 && task.Type != nil
+//@   requires chunksize: defaultChunksize != nil && *defaultChunksize >= 1
 //@   flag recover_safety
 //@   flag abstract_calls frame.Make,frame.AppendFrame,frame.Frame.Slice
 //@   ghost_ensures counted: nBufferOutput == old(nBufferOutput) + 1 && lastBufferErr == err
@@ -122,6 +124,7 @@ package exec
 
 //@ func exec.(*localExecutor).Run
 //@   requires l != nil && task != nil && l.limiter != nil && l.sess != nil && l.buffers != nil && storedIfOK(l, task)
+//@   requires task-shape: task.NumPartition >= 1 && task.Type != nil && defaultChunksize != nil && *defaultChunksize >= 1
 //@   may_panic
 //@   always_ensures procs-returned: l.limiter.held == old(l.limiter.held)
 //@   ensures  one-or-all: implies(l.limiter.nacq > old(l.limiter.nacq), l.limiter.nacq == old(l.limiter.nacq) + 1 && l.limiter.lastAcq == old(ite(exclusivePragma(task.Pragma), l.sess.p, 1)))
